@@ -54,6 +54,10 @@ def make_solver(kind, tname, st, backend="stab"):
     comp = su.compiler(backend, 1)
     if kind == "evo":
         return EvolutionarySolver(target=target, metric=Infidelity(target), compiler=comp, n_emitter=EMITTERS[tname], n_photon=n, solver_setting=setting)
+    if kind == "evoc":
+        # started from a user-supplied circuit (the deterministic solver's circuit for the target)
+        _, circ0, _ = su.run_trs(n, edges, "s", "stab", 1)
+        return EvolutionarySolver(target=target, metric=Infidelity(target), compiler=comp, circuit=circ0, n_emitter=circ0.n_emitters, n_photon=n, solver_setting=setting)
     return HybridEvolutionarySolver(target=target, metric=Infidelity(target), compiler=comp, solver_setting=setting)
 
 
@@ -135,7 +139,7 @@ def batch(arg):
         sig1, _ = run_once(kind, tname, st, seed, checks=checks)
         sig2, _ = run_once(kind, tname, st, seed)
         other = dict(st, n_hof=2, n_pop=2)
-        run_once("evo" if kind == "hyb" else "hyb", "linear3" if tname != "linear3" else "star3", other, seed + 17)
+        run_once("evo" if kind != "evo" else "hyb", "linear3" if tname != "linear3" else "star3", other, seed + 17)
         sig3, _ = run_once(kind, tname, st, seed)
         out.append({"case": case, "sig": sig1, "same_process_repeat": sig2 == sig1, "after_other_run": sig3 == sig1,
                     "problems": [[a, b, json.loads(core.jdump(c))] for a, b, c in (checks or [])],
@@ -145,7 +149,9 @@ def batch(arg):
 
 def all_cases(tier):
     seeds = range(4) if tier == "quick" else range(16)
-    return [{"solver": k, "target": t, "setting": st, "seed": sd} for k in ("evo", "hyb") for t in TARGETS for st in settings(tier) for sd in seeds]
+    cases = [{"solver": k, "target": t, "setting": st, "seed": sd} for k in ("evo", "hyb") for t in TARGETS for st in settings(tier) for sd in seeds]
+    cases += [{"solver": "evoc", "target": t, "setting": st, "seed": sd} for t in ("linear3", "cycle4") for st in settings(tier)[:4] for sd in list(seeds)[:2]]
+    return cases
 
 
 def run(tier, seed):
